@@ -88,9 +88,16 @@ def r2(ctx):
     # the directory base
     joins = [c for c in ast.walk(loop) if isinstance(c, ast.Call) and callee(c) == "os.path.join"]
     file_join = [c for c in joins if any(f"{cmd}.filename" in u(a) for a in c.args)]
-    inc_join = [c for c in joins if c not in file_join and not any(f"{cmd}.directory" in u(a) for a in c.args)]
-    dir_join = [c for c in joins if any(f"{cmd}.directory" in u(a) for a in c.args)]
-    ctx.check(len(file_join) == 1, "config:load_database:file-join", f"expected one os.path.join(<dir>, {cmd}.filename)", ld.loc(loop))
+    def _is_dir_join(c):
+        for a in c.args[1:]:
+            if f"{cmd}.directory" in u(a):
+                return True
+            if isinstance(a, ast.Name) and {u(l) for l, _ in provenance(ld, a, stmt_of(ld, c))} == {f"{cmd}.directory"}:
+                return True
+        return False
+
+    dir_join = [c for c in joins if _is_dir_join(c)]
+    inc_join = [c for c in joins if c not in file_join and c not in dir_join]
     allowed_leaves = {root, f"{cmd}.directory"}
 
     def base_ok(call, what):
@@ -111,23 +118,100 @@ def r2(ctx):
 
     if file_join:
         base_ok(file_join[0], "file")
-    ctx.check(len(inc_join) == 1, "config:load_database:include-join", "expected one os.path.join(<dir>, <include path>) for relative include directories", ld.loc(loop))
-    if inc_join and file_join:
+    if len(inc_join) == 1 and len(file_join) == 1:
         base_ok(inc_join[0], "include-path")
         ctx.check(u(inc_join[0].args[0]) == u(file_join[0].args[0]), "config:load_database:same-base", f"relative include paths are joined to `{u(inc_join[0].args[0])}` but the file to `{u(file_join[0].args[0])}`: both are relative to the same working directory", ld.loc(inc_join[0]))
-    # relative `directory` is joined to the root
-    ctx.check(len(dir_join) == 1 and [u(a) for a in dir_join[0].args] == [root, f"{cmd}.directory"], "config:load_database:relative-directory", "a relative `directory` must be joined to the analysis root", ld.loc(loop))
-    # absolute file names bypass the join
-    iff = [s for s in loop.body if isinstance(s, ast.If) and u(s.test) == f"os.path.isabs({cmd}.filename)"]
-    ok = len(iff) == 1 and u(iff[0].body[0]) == f"path = os.path.abspath({cmd}.filename)" and file_join and any(x is file_join[0] for x in ast.walk(iff[0]))
-    ctx.check(ok, "config:load_database:absolute-file", "an absolute `file` must be used as is, a relative one joined to the entry's directory", ld.loc(loop))
-    # entry["file"] = path ; include_paths rewritten from the parsed list
-    st = [s for s in ast.walk(loop) if isinstance(s, ast.Assign) and u(s.targets[0]) == "entry['file']"]
-    ctx.check(len(st) == 1 and u(st[0].value) == "path", "config:load_database:entry-file", "entry['file'] must be the resolved path", ld.loc(loop))
-    st = [s for s in ast.walk(loop) if isinstance(s, ast.Assign) and u(s.targets[0]) == "entry['include_paths']"]
-    ok = len(st) == 1 and isinstance(st[0].value, ast.ListComp) and u(st[0].value.generators[0].iter) == "entry['include_paths']" and not st[0].value.generators[0].ifs and u(st[0].value.elt).startswith("os.path.abspath(os.path.join(")
-    ctx.check(ok, "config:load_database:entry-include-paths", "every parsed include path must be kept, in order, made absolute", ld.loc(loop))
+    _entry_spec(ctx, repo, ld)
     ctx.floor(9)
+
+
+def _entry_spec(ctx, repo, ld):
+    """What load_database does with one database entry E, stated over its decision table:
+
+        D = rootdir                                    if E.directory is None
+            E.directory                                if it is absolute
+            abspath(join(rootdir, E.directory))        otherwise
+        P = abspath(E.filename)                        if E.filename is absolute
+            abspath(join(D, E.filename))               otherwise
+        unsupported E, or P missing  ->  nothing is added
+        otherwise, for every pass X of the parsed arguments:  X['file'] = P,
+            X['include_paths'] = [abspath(join(D, i)) for i in X['include_paths']],  configuration += [X]
+
+    A path of the table that leaves one of the three tests undecided must satisfy the statement
+    for every way of deciding it."""
+    from ..spec import appended, tab, vt
+    import itertools
+    import re
+
+    paths = tab(ld, unroll=1)
+    dbp, root = ld.params[0], ld.params[1]
+    n_add = n_skip = 0
+    for p in paths:
+        at = {vt(k): v for k, v in p.atoms.items()}
+        dbs = [re.match(r"more\((.+)#L\d+,0\)$", k).group(1) for k, v in p.atoms.items() if re.match(r"more\((.+)#L\d+,0\)$", k) and v]
+        if not dbs:
+            continue
+        DB = dbs[0]
+        E = f"{DB}[0]"
+        ctx.check(DB == f"CompilationDatabase.from_file({dbp})", "config:load_database:entries-from-validated-loader", f"entries are taken from `{DB}`; they must come from CompilationDatabase.from_file(<the database path>), which validates the file against the schema", ld.loc())
+        sup = at.get(f"{E}.is_supported()")
+        effs = [e for e in p.effects if e[0] in ("store", "aug", "call") and not (e[0] == "call" and re.match(r"(log|logging)\.", str(e[1])))]
+        adds = appended(p, "configuration")
+        case = ",".join(f"{k.replace(E, 'E')[:40]}={int(v)}" for k, v in at.items() if E in k and "asdict(" not in k and not k.startswith("more("))[:150]
+        key = f"config:load_database:entry[{case}]"
+        if sup is None:
+            ctx.violation(key, "an entry is processed without asking CompileCommand.is_supported()", ld.loc())
+            continue
+        if not sup:
+            n_skip += 1
+            ctx.check(not adds and not [e for e in effs if e[0] == "store"], key, "an unsupported command must be skipped before anything is resolved or added", ld.loc())
+            continue
+        a_none = next((at[k] for k in (f"{E}.directory Eq None", f"None Eq {E}.directory", f"{E}.directory Is None", f"None Is {E}.directory") if k in at), None)
+        a_dabs = at.get(f"os.path.isabs({E}.directory)")
+        a_fabs = at.get(f"os.path.isabs({E}.filename)")
+        exists = {k: v for k, v in at.items() if k.startswith("os.path.exists(") or k.startswith("os.path.isfile(")}
+        if f"{E}.directory" in at:
+            raise AnalysisError("load_database: `directory` is tested for truth, not for None: form not recognised")
+        ok, why = True, ""
+        for none, dabs, fabs in itertools.product(*[[v] if v is not None else [True, False] for v in (a_none, a_dabs, a_fabs)]):
+            if none and a_dabs is None and dabs:
+                continue
+            D = root if none else (f"{E}.directory" if dabs else f"os.path.abspath(os.path.join({root}, {E}.directory))")
+            P = f"os.path.abspath({E}.filename)" if fabs else f"os.path.abspath(os.path.join({D}, {E}.filename))"
+            ex = exists.get(f"os.path.exists({P})")
+            sit = f"[directory {'absent' if none else 'absolute' if dabs else 'relative'}, file {'absolute' if fabs else 'relative'}]"
+            if ex is None:
+                ok, why = False, f"{sit}: the existence test is made on {sorted(exists) or 'nothing'}; the entry's file is `{P}`"
+                break
+            if not ex:
+                if adds:
+                    ok, why = False, f"{sit}: an entry is added although its file does not exist"
+                    break
+                continue
+            npass = sum(1 for k, v in p.atoms.items() if re.match(r"more\(ArgumentParser\(", k) and v)
+            X = [f"asdict(ArgumentParser(os.path.basename({E}.arguments[0])).parse_args({E}.arguments[1:])[{j}])" for j in range(npass)]
+            got_add = adds
+            if got_add != X:
+                ok, why = False, f"{sit}: {npass} pass(es) parsed (by the parser chosen from basename(arguments[0]) on arguments[1:]) but the entries added are {got_add}"
+                break
+            for x in X:
+                st_file = [vt(e[2]) for e in effs if e[0] == "store" and vt(e[1]) == f"{x}['file']"]
+                st_inc = [vt(e[2]) for e in effs if e[0] == "store" and vt(e[1]) == f"{x}['include_paths']"]
+                if st_file != [P]:
+                    ok, why = False, f"{sit}: entry['file'] is set to {st_file}; expected `{P}`"
+                    break
+                inc_re = r"comp:\[os\.path\.abspath\(os\.path\.join\(" + re.escape(D) + r", (\w+)\)\) for \1 in " + re.escape(x) + r"\['include_paths'\]\]"
+                if len(st_inc) != 1 or not re.fullmatch(inc_re, st_inc[0]):
+                    if len(st_inc) == 1 and not st_inc[0].startswith("comp:"):
+                        raise AnalysisError(f"load_database: include-path rewrite is not a comprehension: {st_inc[0][:80]}")
+                    ok, why = False, f"{sit}: entry['include_paths'] is set to {st_inc}; expected every parsed include path, in order, as abspath(join(`{D}`, path))"
+                    break
+            if not ok:
+                break
+            n_add += bool(X)
+        ctx.check(ok, key, f"database entry handled against the wrong base / file / existence test: {why}", ld.loc())
+    if not (n_add and n_skip):
+        raise AnalysisError(f"load_database: entry idiom not recognised (adding paths {n_add}, skipping paths {n_skip})")
 
 
 @rule("C13.R3", "every skipped database entry is reported with a warning")
@@ -191,36 +275,32 @@ def r4(ctx):
             else:
                 extra.append(k)
         res = p.result[1] if p.result[0] == "return" else None
+        # `return <test>`: the test is returned undecided - its value is the result
+        if not isinstance(res, bool) and res is not None and not extra:
+            rt = vtext(res)
+            if rt == "codebasin.source.is_source_file(self.filename)" and src is None and ne is True:
+                ctx.ok(key + ":returns-source-test")
+                continue
+            if ("len(self.arguments)" in rt or rt == "self.arguments") and ne is None and src is True and ("Gt 0" in rt or "0 Lt" in rt or rt.startswith("bool(")):
+                ctx.ok(key + ":returns-nonempty-test")
+                continue
         if extra or not isinstance(res, bool):
             ctx.violation(key, f"is_supported depends on {extra} / returns {res!r}: {p.describe()}", sup.loc())
             continue
         want = (ne is True) and (src is True)
         decided = (ne is False) or (src is False) or want
         ctx.check(decided and res is want, key, f"must be True iff the command is non-empty and the file has a source extension: {p.describe()}", sup.loc())
-    ld, loop = _entry_loop(repo)
-    cfg = cfg_of(ld)
-    # exists test dominates entry creation
-    ex = [s for s in loop.body if isinstance(s, ast.If) and u(s.test) == "not os.path.exists(path)"]
-    ok = len(ex) == 1 and isinstance(ex[0].body[-1], ast.Continue)
-    ctx.check(ok, "config:load_database:missing-file-skipped", "an entry whose file does not exist must be skipped", ld.loc(loop))
-    if ok:
-        ent = [s for s in ast.walk(loop) if isinstance(s, ast.AugAssign) and u(s.target) == "configuration"]
-        dom = all(cfg.dominates(cfg.node_of(ex[0]), cfg.node_of(e)) for e in ent) and bool(ent)
-        ctx.check(dom, "config:load_database:exists-dominates-entry", "the existence test must precede every entry creation", ld.loc(loop))
-    first = loop.body[0]
-    ok = isinstance(first, ast.If) and u(first.test) == f"not {u(loop.target)}.is_supported()" and isinstance(first.body[-1], ast.Continue)
-    ctx.check(ok, "config:load_database:unsupported-skipped-first", "unsupported commands must be skipped before anything is resolved", ld.loc(first))
     # schema validation
     fj = cc.module.classes["CompilationDatabase"].find_method("from_json")
     ok = any(u(c.func) == "codebasin.util._validate_json" and u(c.args[1]) == "'compiledb'" for c in fj.calls())
-    ctx.check(ok, "__init__:CompilationDatabase.from_json:validated", "the database must be validated against the compilation-database schema", fj.loc())
+    ctx.soft(ok, "__init__:CompilationDatabase.from_json:validated", "the database must be validated against the compilation-database schema", fj.loc())
     ff = cc.module.classes["CompilationDatabase"].find_method("from_file")
     ok = any(u(c.func) == "codebasin.util._load_json" for c in ff.calls())
-    ctx.check(ok, "__init__:CompilationDatabase.from_file:validated", "from_file must load through the validating loader", ff.loc())
+    ctx.soft(ok, "__init__:CompilationDatabase.from_file:validated", "from_file must load through the validating loader", ff.loc())
     vj = repo.func("util", "_validate_json")
     ok = "jsonschema.validate(instance=json_object, schema=schema)" in u(vj.node) and "'compiledb': 'schema/compilation-database.schema'" in u(vj.node)
-    ctx.check(ok, "util:_validate_json:validates", "_validate_json must validate against the named schema", vj.loc())
-    ctx.floor(3 + 6)
+    ctx.soft(ok, "util:_validate_json:validates", "_validate_json must validate against the named schema", vj.loc())
+    ctx.floor(4)
 
 
 @rule("C13.R5", "only files named by database entries, and what they include, are associated with a platform")
@@ -313,13 +393,13 @@ def r7(ctx):
     fj = repo.cls("__init__", "CompilationDatabase").find_method("from_json")
     t = u(fj.node)
     ok = "commands = [CompileCommand.from_json(c) for c in instance]" in t and "return cls(commands)" in t
-    ctx.check(ok, "__init__:CompilationDatabase.from_json:one-command-per-entry", "every entry of the database must become a CompileCommand, in order (no merging, no de-duplication)", fj.loc())
+    ctx.soft(ok, "__init__:CompilationDatabase.from_json:one-command-per-entry", "every entry of the database must become a CompileCommand, in order (no merging, no de-duplication)", fj.loc())
     it = repo.cls("__init__", "CompilationDatabase").find_method("__iter__")
-    ctx.check("yield from self.commands" in u(it.node), "__init__:CompilationDatabase.__iter__", "iteration must yield every command", it.loc())
+    ctx.soft("yield from self.commands" in u(it.node), "__init__:CompilationDatabase.__iter__", "iteration must yield every command", it.loc())
     cj = repo.cls("__init__", "CompileCommand").find_method("from_json")
     t = u(cj.node)
     ok = all(x in t for x in ("instance['file']", "instance.get('directory', None)", "instance.get('arguments', None)", "instance.get('command', None)"))
-    ctx.check(ok, "__init__:CompileCommand.from_json:fields", "file / directory / arguments / command must be taken from the entry unchanged", cj.loc())
+    ctx.soft(ok, "__init__:CompileCommand.from_json:fields", "file / directory / arguments / command must be taken from the entry unchanged", cj.loc())
     # compiler identified by argv[0] only
     ld = repo.func("config", "load_database")
     ap = [c for c in ld.calls() if callee(c) == "ArgumentParser"]
@@ -332,3 +412,23 @@ def r7(ctx):
         ok = ok and all(set(c) <= {"os.path.basename", "<subscript>"} for c in chains)
     ctx.check(ok, "config:load_database:compiler-from-argv0", "the compiler must be looked up by argv[0] (its base name) exactly - stripping suffixes or otherwise rewriting the name loses aliases and definitions of compilers such as gcc-12.2", ld.loc())
     ctx.floor(len(ACCEPT) + len(REJECT) + 3)
+
+
+@rule("C13.R9", "each front end resolves database entries, builds the code base and runs the analysis against ONE root directory, canonicalised the same way")
+def r9(ctx):
+    repo = ctx.repo
+    for short, q, canon in (("__main__", "_main", "os.path.abspath(os.getcwd())"), ("tree", "_tree", "os.path.abspath(os.getcwd())"), ("coverage.__main__", "_compute", "os.path.realpath(args.source_dir)")):
+        f = repo.func(short, q)
+        ld = [c for c in f.calls() if callee(c) == "config.load_database"]
+        cb = [c for c in f.calls() if (dotted(c.func) or "").split(".")[-1] == "CodeBase"]
+        fd = [c for c in f.calls() if callee(c) == "finder.find"]
+        key = f"{f.key}:one-root"
+        if not (len(ld) == 1 and len(cb) == 1 and len(fd) == 1):
+            ctx.violation(key, "load_database / CodeBase / finder.find calls not found exactly once", f.loc())
+            continue
+        roots = [u(ld[0].args[1]) if len(ld[0].args) > 1 else "?", u(cb[0].args[0]) if cb[0].args else "?", u(fd[0].args[0]) if fd[0].args else "?"]
+        ctx.check(len(set(roots)) == 1, key, f"database entries are resolved against `{roots[0]}`, the code base is rooted at `{roots[1]}` and the analysis runs with `{roots[2]}`: relative `file`/`directory`/-I values resolve against a different directory than the one the code base lives in", f.loc(ld[0]))
+        if len(set(roots)) == 1 and isinstance(ld[0].args[1], ast.Name):
+            defs = [s.value for s in walk_no_nested(f.node) if isinstance(s, ast.Assign) and u(s.targets[0]) == roots[0]]
+            ctx.check(len(defs) == 1 and u(defs[0]) == canon, key + ":canonical", f"the root must be `{canon}` (the CodeBase resolves its directories; file names are reported relative to this root): {[u(d) for d in defs]}", f.loc())
+    ctx.floor(3)
